@@ -15,6 +15,10 @@ def flag_case(rnd, big=False):
     from bounded import nbspace
     nlines = 3200 if big else rnd.choice([2, 4, 16])      # big: a very large cell, more than 100 000 characters of source (an embedded table)
     lines = ['stmt_%02d = %d\n' % (i, i) if nlines < 100 else 'row_%04d = %d  # padding padding\n' % (i, i) for i in range(nlines)]
+    head = []
+    if not big and rnd.random() < 0.3:
+        # ordinary text that merely looks like a conflict marker: a setext heading underline, an RST title underline, a quote rule
+        head = rnd.choice([['Results\n', '=======\n'], ['"""\n', 'Helpers\n', '==========\n', '"""\n'], ['>>>>>>> see the note below\n'], ['<<<<<<<<<< snip\n']])
     cells = [nbspace.code_cell(''.join(lines)), nbspace.md_cell('# Title\n\nSome text.\n')]
     # (the very large cell only with cell ids: without them nbdime aligns cells by character-level similarity of the whole sources,
     # which takes minutes at this size)
@@ -27,8 +31,9 @@ def flag_case(rnd, big=False):
         ll[k] = 'stmt_%02d = "local rewrite %d"\n' % (k, k)
         rl[k] = 'stmt_%02d = "remote rewrite %d"\n' % (k, k)
         variants.append((ll[k], rl[k]))
-    l['cells'][0]['source'] = ''.join(ll)
-    r['cells'][0]['source'] = ''.join(rl)
+    l['cells'][0]['source'] = ''.join(head + ll)
+    r['cells'][0]['source'] = ''.join(head + rl)
+    b['cells'][0]['source'] = ''.join(head + lines)
     return b, l, r, variants
 
 
